@@ -10,6 +10,8 @@ def register(prop, J):
          jobs=[
              J("equals-v2", "v2", "codecprops", "^TestC10", checks=(12000, 600000), shards=(4, 16), prepare="prepare_codec",
                extra_pkgs=["dyn", "gendrv"], timeout=(900, 3000)),
+             J("equals-v1", "v1", "codecprops", "^TestC10", checks=(8000, 300000), shards=(4, 16), prepare="prepare_codec",
+               extra_pkgs=["dyn", "gendrv"], timeout=(900, 3000)),
          ],
          level_text="relational laws over generated pools: reflexive (NaN-free), symmetric, transitive, insensitive to insertion order "
                     "and nil-vs-empty, distinguishes every single-position mutation, Equal implies equal hashes, hash is a pure "
